@@ -24,7 +24,7 @@ ECCS = [0.0, 1e-9, 0.0167, 0.1, 0.5, 0.9, 0.95, 0.98, 0.99, 0.999, 0.9999, 0.999
 
 
 def bound(tier):
-    return "13 eccentricities x %s mean anomalies" % ("~7400" if tier == "thorough" else "~900")
+    return "13 eccentricities x %s mean anomalies" % ("~36 000 (x 64 eccentricities)" if tier == "thorough" else "~900")
 
 
 def anomalies(tier):
@@ -35,7 +35,7 @@ def anomalies(tier):
         for sg in (1.0, -1.0):
             for v in ulps(sg * m, 1):
                 vals.add(v)
-    step = 0.1 if tier == "thorough" else 1.0
+    step = 0.02 if tier == "thorough" else 1.0
     n = int(round(360.0 / step))
     for i in range(-n, n + 1):
         vals.add(i * step)
@@ -381,7 +381,8 @@ def run_nodes(block, ctx):
 def clauses(tier):
     ms = anomalies(tier)
     kshards = []
-    for e in ECCS:
+    eccs = ECCS if tier != "thorough" else sorted(set(ECCS + [k / 50.0 for k in range(50)] + [0.9499999, 0.9500001]))
+    for e in eccs:
         for blk in chunks(ms, 4 if tier == "thorough" else 2):
             kshards.append((e, blk))
     orbit = [{"e": e, "a": a} for e in ECC_V for a in AXES]
